@@ -6,7 +6,7 @@ import json, os, subprocess, sys, time
 V = os.path.dirname(os.path.dirname(os.path.abspath(__file__)))
 VH = f"{V}/harness/target/release/vh"
 PROPS = sys.argv[1:] or ["C01", "C03", "C04", "C06", "C07", "C08", "C09", "C10", "C11", "C12", "C18", "C19", "C13"]
-UNIV = {"fix": None, "exh": None, "gram": 1_000_000, "imp": 200_000, "nl": 300_000}
+UNIV = {"fix": None, "exh": None, "gram": 1_000_000, "imp": 200_000, "nl": 300_000, "mut": 600_000}
 path = f"{V}/known-indices.json"
 try:
     known = {}
